@@ -31,6 +31,12 @@ pub enum Script {
     ShortThenFail { short_call: usize, len: usize, fail_call: usize },
     /// at most k bytes per call and a failure at call index `fail_call`
     MaxKThenFail { k: usize, fail_call: usize },
+    /// a short write at `short_call` and ErrorKind::Interrupted at `int_call` (typically the continuation call)
+    ShortThenInterrupt { short_call: usize, len: usize, int_call: usize },
+    /// at most k bytes per call and one ErrorKind::Interrupted at call index `int_call`
+    MaxKInterrupt { k: usize, int_call: usize },
+    /// sink that implements write_vectored itself: accepts at most k bytes per call, spanning slices
+    VecMaxK(usize),
 }
 
 pub struct Sink {
@@ -101,6 +107,25 @@ impl Write for Sink {
                 }
                 take(*k)
             }
+            Script::ShortThenInterrupt { short_call, len, int_call } => {
+                if call == *int_call {
+                    self.interrupted = true;
+                    return Err(io::Error::new(io::ErrorKind::Interrupted, "scripted interruption"));
+                }
+                if call == *short_call {
+                    take(*len)
+                } else {
+                    buf.len()
+                }
+            }
+            Script::MaxKInterrupt { k, int_call } => {
+                if call == *int_call {
+                    self.interrupted = true;
+                    return Err(io::Error::new(io::ErrorKind::Interrupted, "scripted interruption"));
+                }
+                take(*k)
+            }
+            Script::VecMaxK(k) => take(*k),
         };
         self.accepted.extend_from_slice(&buf[..n]);
         Ok(n)
@@ -108,6 +133,34 @@ impl Write for Sink {
     fn flush(&mut self) -> io::Result<()> {
         self.flushes += 1;
         Ok(())
+    }
+    fn write_vectored(&mut self, bufs: &[io::IoSlice<'_>]) -> io::Result<usize> {
+        if let Script::VecMaxK(k) = self.script {
+            // a real vectored sink: accepts up to k bytes across slice boundaries in one call
+            self.calls += 1;
+            let total: usize = bufs.iter().map(|b| b.len()).sum();
+            self.log.push((self.accepted.len(), total));
+            if total == 0 {
+                return Ok(0);
+            }
+            let mut left = k.max(1);
+            let mut n = 0;
+            for b in bufs {
+                let t = b.len().min(left);
+                self.accepted.extend_from_slice(&b[..t]);
+                n += t;
+                left -= t;
+                if left == 0 {
+                    break;
+                }
+            }
+            return Ok(n);
+        }
+        // default behaviour: first non-empty buffer through write()
+        match bufs.iter().find(|b| !b.is_empty()) {
+            Some(b) => self.write(b),
+            None => Ok(0),
+        }
     }
 }
 
@@ -183,7 +236,23 @@ pub fn scripts_for(log: &[(usize, usize)], tier_full: bool) -> Vec<Script> {
     for k in [1usize, 2, 3, 5] {
         for j in [0usize, 1, 3, 7, 24, 25, 26, 27, 28, 30, 40, 60, 100] {
             v.push(Script::MaxKThenFail { k, fail_call: j });
+            v.push(Script::MaxKInterrupt { k, int_call: j });
         }
+    }
+    // a short write followed by an interruption of the continuation call (and of the call after it)
+    for i in 0..n {
+        if log[i].1 < 2 {
+            continue;
+        }
+        for l in [1usize, log[i].1 / 2, log[i].1 - 1] {
+            if l >= 1 && l < log[i].1 {
+                v.push(Script::ShortThenInterrupt { short_call: i, len: l, int_call: i + 1 });
+                v.push(Script::ShortThenInterrupt { short_call: i, len: l, int_call: i + 2 });
+            }
+        }
+    }
+    for k in [1usize, 2, 3, 4, 5, 7, 8, 13, 16, 23, 24, 25, 27, 28, 29, 31, 32, 36, 37, 51, 64] {
+        v.push(Script::VecMaxK(k));
     }
     v
 }
@@ -263,11 +332,12 @@ pub fn check_sinks(bytes: &[u8], case_hash: u64, all_lengths: bool, max_pairs: u
             }
             Script::ShortOnceAt { call, .. } | Script::FailAt { call } | Script::InterruptAt { call } => Some(*call),
             Script::ShortThenFail { fail_call, .. } => Some(*fail_call),
-            Script::MaxKThenFail { .. } => Some(0),
+            Script::ShortThenInterrupt { int_call, .. } => Some(*int_call),
+            Script::MaxKThenFail { .. } | Script::MaxKInterrupt { .. } | Script::VecMaxK(_) => Some(0),
             Script::All => None,
         };
         let in_padding = match (fault_call, first_pad_call) {
-            (Some(f), Some(p)) => matches!(sc, Script::MaxK(_) | Script::MaxKThenFail { .. }) || f >= p,
+            (Some(f), Some(p)) => matches!(sc, Script::MaxK(_) | Script::MaxKThenFail { .. } | Script::MaxKInterrupt { .. } | Script::VecMaxK(_)) || f >= p,
             _ => false,
         };
         if in_padding {
@@ -283,7 +353,7 @@ pub fn check_sinks(bytes: &[u8], case_hash: u64, all_lengths: bool, max_pairs: u
 
 pub fn run(ctx: &Ctx) -> Report {
     let mut rep = Report::new(ID, "fault_enumeration", ctx);
-    rep.rule = "Cases: grammar-generated mappings (padding present after classes / members / by-params in varying combinations, and absent). Canonical bytes = write into a Vec. Per mapping, sinks enumerated: accept <= k bytes per call for k=1..16; short exactly once at every call index i with shortened lengths {1,2,3,4,5,7,len/2,len-1} (all lengths for writes <= 64 bytes on every 8th mapping); fail with ErrorKind::Other at every call index; ErrorKind::Interrupted once at every call index; one short call followed by a failure at every later index; k-limited sinks with a failure. Oracle: Ok => accepted bytes == canonical; non-retryable sink failure => Err; always: accepted bytes are a prefix of canonical; Err without any sink fault is a violation. evaluations = sink runs. Non-trivial = distinct (mapping, sink) where the fault lands on or after the first padding call.".into();
+    rep.rule = "Cases: grammar-generated mappings (padding present after classes / members / by-params in varying combinations, and absent). Canonical bytes = write into a Vec. Per mapping, sinks enumerated: accept <= k bytes per call for k=1..16; short exactly once at every call index i with shortened lengths {1,2,3,4,5,7,len/2,len-1} (all lengths for writes <= 64 bytes on every 8th mapping); fail with ErrorKind::Other at every call index; ErrorKind::Interrupted once at every call index; one short call followed by a failure at every later index; k-limited sinks with a failure or an interruption; a short write followed by ErrorKind::Interrupted on the continuation call; sinks that implement write_vectored themselves and accept at most k bytes across slice boundaries. Oracle: Ok => accepted bytes == canonical; non-retryable sink failure => Err; always: accepted bytes are a prefix of canonical; Err without any sink fault is a violation. evaluations = sink runs. Non-trivial = distinct (mapping, sink) where the fault lands on or after the first padding call.".into();
     rep.assumptions = vec!["sinks obey the std::io::Write contract (never Ok(0) for a non-empty buffer)".into(), "an Interrupted that surfaces as Err is tolerated (the statement only forbids success with wrong bytes)".into()];
     let n = ctx.cases(15_000, 600_000);
     rep.run_stage("ast", || map_case(&cfg()), n, check_case);
